@@ -23,16 +23,16 @@ type vfBase struct {
 }
 
 type vfLog struct {
-	probed  [6]int
-	np      int
-	inited  [6]int
-	ni      int
+	probed [6]int
+	np     int
+	inited [6]int
+	ni     int
 }
 
 var vfInitErr = &kernel.Error{Module: "mock", Message: "x"}
 
-func (b *vfBase) DriverName() string                       { return "m" }
-func (b *vfBase) DriverVersion() (uint16, uint16, uint16)  { return 0, 0, 0 }
+func (b *vfBase) DriverName() string                      { return "m" }
+func (b *vfBase) DriverVersion() (uint16, uint16, uint16) { return 0, 0, 0 }
 func (b *vfBase) DriverInit(w io.Writer) *kernel.Error {
 	b.log.inited[b.log.ni] = b.id
 	b.log.ni++
@@ -46,21 +46,21 @@ type vfOther struct{ vfBase }
 
 type vfCons struct{ vfBase }
 
-func (c *vfCons) Dimensions(console.Dimension) (uint32, uint32)      { return 80, 25 }
-func (c *vfCons) DefaultColors() (uint8, uint8)                      { return 7, 0 }
-func (c *vfCons) Fill(x, y, w, h uint32, fg, bg uint8)               {}
-func (c *vfCons) Scroll(console.ScrollDir, uint32)                   {}
-func (c *vfCons) Write(ch byte, fg, bg uint8, x, y uint32)           {}
-func (c *vfCons) Palette() color.Palette                             { return nil }
-func (c *vfCons) SetPaletteColor(uint8, color.RGBA)                  {}
+func (c *vfCons) Dimensions(console.Dimension) (uint32, uint32) { return 80, 25 }
+func (c *vfCons) DefaultColors() (uint8, uint8)                 { return 7, 0 }
+func (c *vfCons) Fill(x, y, w, h uint32, fg, bg uint8)          {}
+func (c *vfCons) Scroll(console.ScrollDir, uint32)              {}
+func (c *vfCons) Write(ch byte, fg, bg uint8, x, y uint32)      {}
+func (c *vfCons) Palette() color.Palette                        { return nil }
+func (c *vfCons) SetPaletteColor(uint8, color.RGBA)             {}
 
 type vfTTY struct {
 	vfBase
-	attached console.Device
-	nattach  int
-	state    tty.State
-	recv     [160]byte
-	nrecv    int
+	attached          console.Device
+	nattach           int
+	state             tty.State
+	recv              [160]byte
+	nrecv             int
 	recvWhileDetached int
 }
 
